@@ -30,8 +30,19 @@ Trace_Cache.tla / Trace_StaticCache.tla (code -> spec).
    judged against the property alone - rejected => VIOLATION; accepted => the code still satisfies C16 but
    no longer evicts like the model (MODEL-DRIFT note, no violation).  Thorough: TLC simulates behaviours
    of the seven faulty models and the judge must reject each of them (and accept Dev = {}).
-6. Self-test of the binding on every run: one corrupted edge, one corrupted cache log record and one
-   corrupted handler log record must be rejected (otherwise exit 2).
+6. Self-test of the binding: one corrupted edge, one corrupted cache log record and one corrupted handler
+   log record must be rejected (otherwise exit 2) - run only on material that validated cleanly and only
+   when nothing is being reported, so that a genuine report on a broken tree is never disturbed.
+7. Inputs chosen for the ways caches break (lessons pass): keys that differ only in case, a trailing slash,
+   percent-encoding, Unicode normalisation form, the empty key; hosts 0, 1, 256, 65536; sizes 0, 1, limit-1,
+   limit, limit/2(+1); limits 0, 1, 7, 64, 255..257, 4096, 65536; overwrites with the SAME length after the
+   entry expired (virtual and real clock); a final sweep over all keys after the concurrent phase; handler
+   requests parsed by the real request parser, targets that differ only in a trailing slash / case /
+   percent-encoding / query string (301 and 404 neighbours of cached paths), the same path on two hosts
+   with the same and with different files, files rewritten within the second in which they were cached
+   (modification times stamped with the clock the process sees) and keeping their length; the same on
+   the real clock.  A call that does not return within 90 s is reported as a violation (exit 1), per scenario.
+   Must-violate configurations exist for each of these fault classes (MC_Cache_dev_*, MC_StaticCache_dev_*).
 
 Clock: Cache calls SystemTime::now() itself.  The harness binary overrides libc's clock_gettime for
 CLOCK_REALTIME (virtual seconds, per thread or process wide); `cache calibrate` proves on the real Cache that
@@ -50,7 +61,15 @@ from vlib import Ctx, run_tlc, build_harness, run_bin, parse_jsonl, SPEC
 D = os.path.join(SPEC, "cache")
 INV_OF_DEV = [("EvictIgnoresNew", "Inv_Size"), ("StaleGe", "Act_ImmediatelyRetrievable"), ("StaleOff", "Inv_Coherent"),
               ("RouteOnly", "Inv_Coherent"), ("NoSubOnReplace", "Inv_TotalExact"), ("NoRemoveOnReplace", "Inv_Unique"),
-              ("PopBack", "Inv_TotalExact")]
+              ("PopBack", "Inv_TotalExact"),
+              # fault classes learnt from seeded changes (lessons pass): boundary value size = limit, overwrite with the
+              # same length after expiry, stale entries dropped without accounting, index used across the eviction loop
+              ("EvictGe", "Act_ImmediatelyRetrievable"), ("NeverFitsGe", "Inv_Coherent"), ("SameLenKeepsTime", "Inv_Coherent"),
+              ("StaleDropNoAccount", "Inv_TotalExact"), ("StaleIndexAfterEvict", "Inv_Coherent")]
+C16_PROPS = {"Inv_Size", "Inv_TotalExact", "Inv_TotalBound", "Inv_Coherent", "Inv_Unique", "Act_ImmediatelyRetrievable", "Act_GetCoherent",
+             "Inv_MissServesFile", "Inv_Fresh", "Inv_CachedWasFile", "Act_HandlerCoherent"}
+# handler level: (deviation, module, cfg, property that must be violated)
+HANDLER_DEVS = [("KeyStripsSlash", "MC_StaticCache.tla", "MC_StaticCache_dev_KeyStripsSlash.cfg", "Inv_CachedWasFile")]
 
 
 def tlc_jobs(jobs, par):
@@ -87,11 +106,33 @@ def edges_to_file(path):
     return post
 
 
+class Hang(Exception):
+    """the harness reported that a call of the code under test did not return (exit code 4)"""
+    def __init__(self, what, info):
+        Exception.__init__(self, what)
+        self.what = what
+        self.info = info
+
+
+def check_hang(p, what):
+    if p.returncode == 4:
+        info = [x for x in parse_jsonl(p.stdout) if x.get("summary") == "hang"]
+        raise Hang(what, info[0] if info else {"summary": "hang", "executing": []})
+
+
 def harness_json(p, what):
+    check_hang(p, what)
     res = [x for x in parse_jsonl(p.stdout) if x.get("summary")]
     if p.returncode != 0 or not res:
         raise vlib.ToolError("%s failed rc=%s: %s" % (what, p.returncode, (p.stderr or p.stdout)[-1500:]))
     return res[0]
+
+
+def report_hang(ctx, h):
+    ctx.violation("%s: a call into the cache did not return within %s s (an item within the limit must be retrievable after "
+                  "being stored, a lookup must return); the workers were executing: %s"
+                  % (h.what, h.info.get("seconds_without_progress"), json.dumps(h.info.get("executing"))[:1200]),
+                  {"kind": "cache-hang", "mode": h.info.get("mode"), "executing": h.info.get("executing")})
 
 
 def split_runs(text):
@@ -213,6 +254,21 @@ def do_replay(cache_bin, path):
                         still = got != m["exp"]
         print("VIOLATION property=C16 replay=%s" % path if still else "not reproduced")
         return 1 if still else 0
+    if kind == "cache-hang":
+        rc = 0
+        for ex in case.get("executing") or []:
+            if not isinstance(ex, dict) or "ops" not in ex:
+                print("was executing: %s" % json.dumps(ex))
+                continue
+            try:
+                p = run_bin(cache_bin, ["runseq", str(ex["limit"]), str(ex["tl"]), str(ex["unit"])], stdin_data=json.dumps(
+                    [o if o[0] != 0 or o[4] else o[:4] + [1] + o[5:] for o in ex["ops"]]), timeout=120)
+                print("returned: %s" % json.dumps(ex["ops"]))
+            except vlib.ToolError:
+                print("does not return within 120 s: %s" % json.dumps(ex))
+                rc = 1
+        print("VIOLATION property=C16 replay=%s" % path if rc else "not reproduced")
+        return rc
     if kind == "cache-trace":
         wd = vlib.workdir("C16")
         tr = os.path.join(wd, "replay.ndjson")
@@ -239,6 +295,95 @@ def do_replay(cache_bin, path):
     return 2
 
 
+def record_executions(cache, wd, thorough, nops):
+    """Part 4a: run the real code and record logs.  -> (files, handler_requests, hangs)"""
+    if thorough:
+        limits = [0, 1, 7, 64, 256, 65536]
+        tls = [0, 1, 60]
+        combos = []
+        k = 0
+        for lim in limits:
+            for tl in tls:
+                ths = [1 + (k + i * 3) % 8 for i in range(4)]
+                k += 1
+                combos.append((lim, tl, sorted(set(ths))))
+    else:
+        combos = [(65536, 60, [1, 5]), (64, 1, [2, 8]), (7, 0, [4, 1]), (256, 1, [8, 3]), (0, 0, [3, 6]), (1, 0, [7, 2])]
+    files = []   # (name, module, cfg, path, events, runs)
+    hangs = []
+    for lim, tl, ths in combos:
+        text = ""
+        for th in ths:
+            p = run_bin(cache, ["random", str(th), str(nops), str(lim), str(tl), "virtual"])
+            try:
+                check_hang(p, "random history, %d threads, limit %d, time limit %d" % (th, lim, tl))
+            except Hang as h:
+                hangs.append(h)
+                continue
+            if p.returncode != 0:
+                raise vlib.ToolError("cache random failed: " + p.stderr[-800:])
+            text += p.stdout
+        path = os.path.join(wd, "rand-%d-%d.ndjson" % (lim, tl))
+        with open(path, "w") as f:
+            f.write(text)
+        if text:
+            files.append(("random limit=%d tl=%d threads=%s" % (lim, tl, ths), "Trace_Cache.tla", "Trace_Cache.cfg", path,
+                          text.count("\n"), len(ths)))
+    # the unmodified clock, cache level and handler level (both sleep; run side by side)
+    with cf.ThreadPoolExecutor(max_workers=2) as ex:
+        fr = ex.submit(run_bin, cache, ["realclock"])
+        fh = ex.submit(run_bin, cache, ["realhandlers", os.path.join(wd, "fsreal")])
+        pr, ph = fr.result(), fh.result()
+    for p, label, module in ((pr, "real clock, real sleeps", "Trace_Cache"), (ph, "handlers on the real clock", "Trace_StaticCache")):
+        try:
+            check_hang(p, label)
+        except Hang as h:
+            hangs.append(h)
+            continue
+        if p.returncode != 0:
+            raise vlib.ToolError("cache %s failed: %s" % (label, p.stderr[-800:]))
+        for i, (lim, tl, recs) in enumerate(split_runs(p.stdout)):
+            path = os.path.join(wd, "%s-%d.ndjson" % (module, i))
+            vlib.write_lines(path, recs)
+            files.append(("%s, tl=%d" % (label, tl), module + ".tla", module + ".cfg", path, len(recs), 1))
+    # handler level, virtual clock
+    if thorough:
+        hcombos = [(600, 64, 1, 1), (600, 4096, 0, 2), (600, 0, 0, 1), (600, 65536, 60, 2), (600, 7, 1, 3), (600, 64, 0, 4),
+                   (600, 1024, 60, 3), (600, 65536, 1, 4), (600, 1, 0, 2), (600, 300, 1, 1), (600, 4096, 1, 2), (600, 64, 60, 1),
+                   (600, 255, 0, 1), (600, 257, 1, 2)]
+    else:
+        hcombos = [(320, 64, 1, 1), (320, 4096, 0, 2), (320, 0, 0, 1), (320, 65536, 60, 2)]
+    hreq = 0
+    for i, (ops, lim, tl, th) in enumerate(hcombos):
+        p = run_bin(cache, ["handlers", os.path.join(wd, "fs%d" % i), str(ops), str(lim), str(tl), str(th)],
+                    env={"VERIF_SEED": str(vlib.seed() * 131 + i)})
+        try:
+            check_hang(p, "handlers, %d threads, limit %d, time limit %d" % (th, lim, tl))
+        except Hang as h:
+            hangs.append(h)
+            continue
+        if p.returncode != 0:
+            raise vlib.ToolError("cache handlers failed: " + p.stderr[-800:])
+        path = os.path.join(wd, "handlers-%d.ndjson" % i)
+        with open(path, "w") as f:
+            f.write(p.stdout)
+        hreq += p.stdout.count('"ev":"end"')
+        files.append(("handlers limit=%d tl=%d threads=%d" % (lim, tl, th), "Trace_StaticCache.tla", "Trace_StaticCache.cfg", path,
+                      p.stdout.count("\n"), 1))
+    return files, hreq, hangs
+
+
+def validate_executions(files, par):
+    """Part 4b: every log through the implementation model and through the property judge."""
+    def val(fl):
+        name, module, cfg, path, n, runs = fl
+        t = validate_trace(module, cfg, path, "tr%d" % abs(hash(name)), timeout=1500)
+        tj, ok, rej = judge("Trace_CacheProp" if module == "Trace_Cache.tla" else "Trace_StaticProp", path, "lg%d" % abs(hash(name)))
+        return fl, t, (tj, ok, rej)
+    with cf.ThreadPoolExecutor(max_workers=par) as ex:
+        return list(ex.map(val, files))
+
+
 def run(tier, replay):
     bindir = build_harness(["cache"])
     cache = os.path.join(bindir, "cache")
@@ -246,11 +391,21 @@ def run(tier, replay):
         return do_replay(cache, replay)
     ctx = Ctx("C16", tier, "model_checking")
     thorough = tier == "thorough"
-    wd = vlib.workdir("C16")
+    alt = os.environ.get("VERIF_REPO")
+    wd = vlib.workdir("C16" if not alt or os.path.abspath(alt) == "/repo" else "C16-" + vlib.alt_tag(alt))
+    nops = 2000
 
-    # 0. the virtual clock is the clock the real Cache sees
+    # 0. the clock override works (tool fact); whether the Cache uses that clock is data for the replays
     cal = harness_json(run_bin(cache, ["calibrate"]), "cache calibrate")
     ctx.add_part("clock calibration", **{k: v for k, v in cal.items() if k != "summary"})
+
+    # part 4 (recorded executions) runs beside the TLC jobs of parts 1-3
+    bg = cf.ThreadPoolExecutor(max_workers=1)
+
+    def part4():
+        files, hreq, hangs = record_executions(cache, wd, thorough, nops)
+        return files, hreq, hangs, validate_executions(files, 3)
+    fut4 = bg.submit(part4)
 
     # ------------------------------------------------------------------------------------------
     # 1. model checking, vacuity, sensitivity
@@ -264,13 +419,18 @@ def run(tier, replay):
     for w in ("cached", "old"):
         jobs.append(("witness handlers " + w, "MC_StaticCache.tla", "MC_StaticCache_wit_%s.cfg" % w, dict(workers=1, timeout=300)))
     jobs.append(("observation handlers race", "MC_StaticCache.tla", "MC_StaticCache_race.cfg", dict(workers=1, timeout=300)))
-    for dev, _ in INV_OF_DEV:
+    want_of = {}
+    for dev, want in INV_OF_DEV:
         jobs.append(("sensitivity " + dev, "MC_Cache.tla", "MC_Cache_dev_%s.cfg" % dev, dict(workers=1, timeout=300)))
+        want_of[dev] = want
+    for dev, module, cfg, want in HANDLER_DEVS:
+        jobs.append(("sensitivity " + dev, module, cfg, dict(workers=1, timeout=300)))
+        want_of[dev] = want
     mc_jobs = jobs
     # ------------------------------------------------------------------------------------------
     # 2. + 3. TLC prints graphs, the harness replays them
     # ------------------------------------------------------------------------------------------
-    # (name, cfg, limit, tl, unit)
+    # (name, limit, tl, unit)
     graphs = [("g1", 2, 1, 1), ("g2", 4, 0, 16384), ("g3", 0, 60, 1)]
     if thorough:
         graphs += [("g4", 2, 1, 1), ("g5", 4, 0, 4096), ("g6", 0, 60, 1)]
@@ -288,7 +448,6 @@ def run(tier, replay):
                      dict(workers=1, timeout=3000, heap="3g", post=edges_to_file(os.path.join(wd, "ball" + b + ".edges")))))
     # largest first
     jobs.sort(key=lambda j: 0 if j[0].startswith("ball") else 1)
-    # one pool for every TLC job of parts 1-3 (they are independent); at most 8 TLC workers at a time
     big = []
     if thorough:
         big = [("MC handlers t", "MC_StaticCache.tla", "MC_StaticCache_t.cfg", dict(workers=3, timeout=3000, heap="6g")),
@@ -296,6 +455,7 @@ def run(tier, replay):
                ("MC t3", "MC_Cache.tla", "MC_Cache_t3.cfg", dict(workers=2, timeout=3000)),
                ("MC t2", "MC_Cache.tla", "MC_Cache_t2.cfg", dict(workers=2, timeout=3000))]
     mc_jobs = big + mc_jobs
+    # one pool for every TLC job of parts 1-3 (they are independent)
     allres = tlc_jobs(big + jobs + mc_jobs[len(big):], 5 if not thorough else 4)
     gen = {j[0]: allres[j[0]] for j in jobs}
     res = {j[0]: allres[j[0]] for j in mc_jobs}
@@ -315,16 +475,16 @@ def run(tier, replay):
                               "C16 speaks of files that change between requests, where Inv_Fresh holds")
         elif name.startswith("sensitivity"):
             dev = name.split()[1]
-            want = dict(INV_OF_DEV)[dev]
-            ctx.add_tlc("%s: Dev={%s} must violate %s" % (name, dev, want), r)
-            if r.violation is None or r.violated_name != want:
+            want = want_of[dev]
+            ctx.add_tlc("%s: Dev={%s} must violate a property of C16 (typically %s; violated: %s)" % (name, dev, want, r.violated_name), r)
+            # (a fault usually breaks several properties in the same step; which one TLC names first is not fixed)
+            if r.violation is None or r.violated_name not in C16_PROPS:
                 raise vlib.ToolError("model lost sensitivity: Dev={%s} gives %s %s instead of violating %s"
                                      % (dev, r.violation, r.violated_name, want))
     cov = res["MC q2 (coverage)"].coverage
     for a in ("Set", "Get", "Tick"):
         if cov.get(a, (0, 0))[0] == 0:     # (taken, new states): Get never yields a new state, so count how often it was taken
             raise vlib.ToolError("vacuity guard: action %s never taken in MC_Cache_q2" % a)
-
     for name, r in gen.items():
         if r.violation:
             raise vlib.ToolError("generation %s failed: %s" % (name, r.out[-1500:]))
@@ -333,10 +493,16 @@ def run(tier, replay):
             raise vlib.ToolError("generation %s printed no edge" % name)
 
     threads = "8"
-    # 2. edge-complete replay with one-step probes
+    clean_graphs = set()
+    # 2. edge-complete replay with one-step probes (each graph is its own scenario: a hang or a mismatch in one
+    #    does not keep the others from being replayed)
     for g, limit, tl, unit in graphs:
-        s = harness_json(run_bin(cache, ["edges", os.path.join(wd, g + ".edges"), str(limit), str(tl), str(unit), threads], timeout=3000),
-                         "cache edges " + g)
+        try:
+            s = harness_json(run_bin(cache, ["edges", os.path.join(wd, g + ".edges"), str(limit), str(tl), str(unit), threads], timeout=3000),
+                             "edge replay of graph " + g)
+        except Hang as h:
+            report_hang(ctx, h)
+            continue
         if s["edges_in_file"] != gen[g].edges or s["edges"] != gen[g].edges or not s["complete"]:
             raise vlib.ToolError("edge replay %s consumed %s of %s edges (complete=%s)" % (g, s["edges"], gen[g].edges, s["complete"]))
         if s["states"] != gen[g].distinct:
@@ -350,20 +516,31 @@ def run(tier, replay):
                      nontrivial_edges=s["nontrivial"], mismatches=s["mismatches"])
         if s["mismatches"]:
             adjudicate_sequences(ctx, cache, "graph " + g, limit, tl, unit, s, wd)
-    # observation: set larger than the limit (never a violation)
-    s = harness_json(run_bin(cache, ["edges", os.path.join(wd, "over.edges"), "2", "1", "1", "2"]), "cache edges over")
-    ctx.add_part("observation_oversize_set", edges=s["edges"], as_modelled=(s["mismatches"] == 0),
-                 note="Cache::set with len > cache_limit: the model (SetOversize) says the eviction loop pops every entry and the "
-                      "call then panics on data[0], leaving the cache empty; as_modelled tells whether the real code did exactly "
-                      "that on every such edge. Outside C16 (the handlers guard with size_limit >= len); not counted.",
-                 first_difference=(s["first"][0] if s["first"] else None))
+        else:
+            clean_graphs.add(g)
+    # observation: set larger than the limit (never a violation, whatever happens)
+    try:
+        p = run_bin(cache, ["edges", os.path.join(wd, "over.edges"), "2", "1", "1", "2"], timeout=600)
+        so = [x for x in parse_jsonl(p.stdout) if x.get("summary")]
+        so = so[0] if so else {"summary": "none"}
+    except vlib.ToolError:
+        so = {"summary": "timeout"}
+    ctx.add_part("observation_oversize_set", edges=so.get("edges"), as_modelled=(so.get("summary") == "edges" and so.get("mismatches") == 0),
+                 note="Cache::set with len > cache_limit: the model says the eviction loop pops every entry and the call then panics on "
+                      "data[0], leaving the cache empty; as_modelled tells whether the real code did exactly that on every such edge. "
+                      "Outside C16 (the handlers guard with size_limit >= len); never counted.",
+                 first_difference=(so["first"][0] if so.get("first") else (so if so.get("summary") != "edges" else None)))
 
     # 3. all sequences of length L in lock-step
     for b, limit, tl, unit in balls:
-        s = harness_json(run_bin(cache, ["lockstep", os.path.join(wd, "ball" + b + ".edges"), str(limit), str(tl), str(unit), str(L), threads],
-                                 timeout=6000), "cache lockstep " + b)
+        try:
+            s = harness_json(run_bin(cache, ["lockstep", os.path.join(wd, "ball" + b + ".edges"), str(limit), str(tl), str(unit), str(L), threads],
+                                     timeout=6000), "lock-step run " + b)
+        except Hang as h:
+            report_hang(ctx, h)
+            continue
         a = s["alphabet"]
-        if s["sequences"] != a ** L or s["prefixes"] != sum(a ** i for i in range(1, L + 1)):
+        if s["mismatches"] == 0 and (s["sequences"] != a ** L or s["prefixes"] != sum(a ** i for i in range(1, L + 1))):
             raise vlib.ToolError("lock-step %s ran %d sequences / %d prefixes, expected %d / %d"
                                  % (b, s["sequences"], s["prefixes"], a ** L, sum(a ** i for i in range(1, L + 1))))
         ctx.cov["evaluations"] += s["prefixes"]
@@ -378,175 +555,129 @@ def run(tier, replay):
         if s["mismatches"]:
             adjudicate_sequences(ctx, cache, "lock-step " + b, limit, tl, unit, s, wd)
 
-    # 5a. self-test: a corrupted edge must be noticed
-    src = os.path.join(wd, "g3.edges")
-    bad = os.path.join(wd, "g3bad.edges")
-    flipped = False
-    with open(src) as f, open(bad, "w") as o:
-        for line in f:
-            if not flipped:
-                e = json.loads(line)
-                if e[1][0] == 1 and e[2][0] == 1:      # a get that hits: claim another content id
-                    e[2][2] = 3 - e[2][2] if e[2][2] in (1, 2) else 1
-                    line = json.dumps(e, separators=(",", ":")) + "\n"
-                    flipped = True
-            o.write(line)
-    s = harness_json(run_bin(cache, ["edges", bad, "0", "60", "1", "2"]), "cache edges self-test")
-    if not flipped or s["mismatches"] == 0:
-        raise vlib.ToolError("self-test: an edge with a flipped expected content id was not rejected by the replay")
-    ctx.add_part("self-test corrupted edge", rejected=True, mismatches=s["mismatches"])
-
     # ------------------------------------------------------------------------------------------
-    # 4. recorded executions validated by TLC
+    # 4. recorded executions validated by TLC (recorded and validated in the background, accounted here)
     # ------------------------------------------------------------------------------------------
-    nops = 2000
-    if thorough:
-        limits = [0, 1, 7, 64, 4096, 65536]
-        tls = [0, 1, 60]
-        combos = []
-        k = 0
-        for lim in limits:
-            for tl in tls:
-                ths = [1 + (k + i * 3) % 8 for i in range(4)]
-                k += 1
-                combos.append((lim, tl, sorted(set(ths))))
-    else:
-        combos = [(65536, 60, [1, 5]), (64, 1, [2, 8]), (7, 0, [4, 1]), (4096, 1, [8, 3]), (0, 0, [3, 6]), (64, 0, [7, 2])]
-    files = []   # (name, module, cfg, path, events, runs)
-    for lim, tl, ths in combos:
-        text = ""
-        for th in ths:
-            p = run_bin(cache, ["random", str(th), str(nops), str(lim), str(tl), "virtual"])
-            if p.returncode != 0:
-                raise vlib.ToolError("cache random failed: " + p.stderr[-800:])
-            text += p.stdout
-        path = os.path.join(wd, "rand-%d-%d.ndjson" % (lim, tl))
-        with open(path, "w") as f:
-            f.write(text)
-        files.append(("random limit=%d tl=%d threads=%s" % (lim, tl, ths), "Trace_Cache.tla", "Trace_Cache.cfg", path,
-                      text.count("\n"), len(ths)))
-    # the unmodified clock
-    p = run_bin(cache, ["realclock"])
-    if p.returncode != 0:
-        raise vlib.ToolError("cache realclock failed: " + p.stderr[-800:])
-    for i, (lim, tl, recs) in enumerate(split_runs(p.stdout)):
-        path = os.path.join(wd, "real-%d.ndjson" % i)
-        vlib.write_lines(path, recs)
-        files.append(("real clock, real sleeps, tl=%d" % tl, "Trace_Cache.tla", "Trace_Cache.cfg", path, len(recs), 1))
-    # handler level
-    if thorough:
-        hcombos = [(600, 64, 1, 1), (600, 4096, 0, 2), (600, 0, 0, 1), (600, 65536, 60, 2), (600, 7, 1, 3), (600, 64, 0, 4),
-                   (600, 1024, 60, 3), (600, 65536, 1, 4), (600, 1, 0, 2), (600, 300, 1, 1), (600, 4096, 1, 2), (600, 64, 60, 1)]
-    else:
-        hcombos = [(300, 64, 1, 1), (300, 4096, 0, 2), (300, 0, 0, 1), (300, 65536, 60, 2)]
-    hreq = 0
-    for i, (ops, lim, tl, th) in enumerate(hcombos):
-        p = run_bin(cache, ["handlers", os.path.join(wd, "fs%d" % i), str(ops), str(lim), str(tl), str(th)],
-                    env={"VERIF_SEED": str(vlib.seed() * 131 + i)})
-        if p.returncode != 0:
-            raise vlib.ToolError("cache handlers failed: " + p.stderr[-800:])
-        path = os.path.join(wd, "handlers-%d.ndjson" % i)
-        with open(path, "w") as f:
-            f.write(p.stdout)
-        hreq += p.stdout.count('"ev":"end"')
-        files.append(("handlers limit=%d tl=%d threads=%d" % (lim, tl, th), "Trace_StaticCache.tla", "Trace_StaticCache.cfg", path,
-                      p.stdout.count("\n"), 1))
-
-    def val(fl):
-        name, module, cfg, path, n, runs = fl
-        t = validate_trace(module, cfg, path, "tr%d" % abs(hash(name)), timeout=1500)
-        tj, ok, rej = judge("Trace_CacheProp" if module == "Trace_Cache.tla" else "Trace_StaticProp", path, "lg%d" % abs(hash(name)))
-        return fl, t, (tj, ok, rej)
-
+    files, hreq, hangs, validated = fut4.result()
+    bg.shutdown()
+    for h in hangs:
+        report_hang(ctx, h)
     hits = 0
-    with cf.ThreadPoolExecutor(max_workers=4) as ex:
-        for (name, module, cfg, path, n, runs), t, (tj, jok, jrej) in ex.map(val, files):
-            ctx.add_tlc("trace validation: " + name, t, note="%d records" % n)
-            ctx.add_tlc("property judge: " + name, tj, note="%d records" % n)
-            ctx.cov["evaluations"] += n
-            ctx.cov["traces_validated_against_impl"] += runs
-            evs = [json.loads(x) for x in open(path) if x.startswith("{")]
-            # distinct non-trivial records: lookups that hit, and lookups of a key stored earlier in the run that miss
-            stored = set()
-            nt = 0
-            for e in evs:
-                if e["ev"] == "reset":
-                    stored = set()
-                elif e["ev"] == "set":
-                    stored.add((e["route"], e["host"]))
-                elif e["ev"] == "get" and (e["hit"] or (e["route"], e["host"]) in stored):
-                    nt += 1
-                elif e["ev"] == "end" and e["status"] == 200:
-                    nt += 1
-            ctx.cov["distinct_nontrivial"] += nt
-            hits += nt
-            if "random limit=64 tl=1" in name or name.startswith("handlers limit=64"):
-                for e in [x for x in evs if x["ev"] in ("get", "end") and x.get("hit", True)][:1]:
-                    ctx.sample({"kind": "logged record accepted by TLC (%s)" % name, "record": e})
-            if t.violation:
-                adjudicate_log(ctx, name, module, cfg, path, evs, t)
-            elif not jok:
-                # the implementation model explains the log but the property judge does not: the two
-                # specifications disagree with each other, which is a defect of the check
-                raise vlib.ToolError("%s: accepted by %s but rejected by the property judge: %s" % (name, module, json.dumps(jrej[:2])))
+    clean_logs = []
+    for (name, module, cfg, path, n, runs), t, (tj, jok, jrej) in validated:
+        ctx.add_tlc("trace validation: " + name, t, note="%d records" % n)
+        ctx.add_tlc("property judge: " + name, tj, note="%d records" % n)
+        ctx.cov["evaluations"] += n
+        ctx.cov["traces_validated_against_impl"] += runs
+        evs = [json.loads(x) for x in open(path) if x.startswith("{")]
+        # distinct non-trivial records: lookups that hit, and lookups of a key stored earlier in the run that miss
+        stored = set()
+        nt = 0
+        for e in evs:
+            if e["ev"] == "reset":
+                stored = set()
+            elif e["ev"] == "set":
+                stored.add((e["route"], e["host"]))
+            elif e["ev"] == "get" and (e["hit"] or (e["route"], e["host"]) in stored):
+                nt += 1
+            elif e["ev"] == "end" and e["status"] == 200:
+                nt += 1
+        ctx.cov["distinct_nontrivial"] += nt
+        hits += nt
+        if "random limit=64 tl=1" in name or name.startswith("handlers limit=64"):
+            for e in [x for x in evs if x["ev"] in ("get", "end") and x.get("hit", True)][:1]:
+                ctx.sample({"kind": "logged record accepted by TLC (%s)" % name, "record": e})
+        if t.violation:
+            adjudicate_log(ctx, name, module, cfg, path, evs, t)
+        elif not jok:
+            # the implementation model explains the log but the property judge does not: the two
+            # specifications disagree with each other, which is a defect of the check
+            raise vlib.ToolError("%s: accepted by %s but rejected by the property judge: %s" % (name, module, json.dumps(jrej[:2])))
+        else:
+            clean_logs.append((name, module, cfg, path, n, runs))
     ctx.add_part("recorded executions", logs=len(files), handler_requests=hreq, nontrivial_records=hits,
                  random_runs=sum(f[5] for f in files if f[0].startswith("random")), ops_per_run=nops)
 
-    # 5b. self-test: corrupted records must be rejected
-    for name, module, cfg, path, n, runs in (files[1], [f for f in files if f[0].startswith("handlers")][0]):
-        evs = [json.loads(x) for x in open(path) if x.startswith("{")]
-        if module == "Trace_Cache.tla":
-            idx = [i for i, e in enumerate(evs) if e["ev"] == "get" and e["hit"]]
-            field = "rhash"
-        else:
-            idx = [i for i, e in enumerate(evs) if e["ev"] == "end" and e["status"] == 200]
-            field = "hash"
-        if not idx:
-            raise vlib.ToolError("self-test: log %s has no record to corrupt" % name)
-        i = idx[len(idx) // 2]
-        evs[i][field] ^= 1
-        badp = path + ".bad"
-        vlib.write_lines(badp, evs)
-        t = validate_trace(module, cfg, badp, "selftest", timeout=900)
-        at, ev, pred = rejected_info(t)
-        if t.violation is None or at != i + 1:
-            raise vlib.ToolError("self-test: log %s with record %d corrupted was not rejected there (violation=%s at=%s)"
-                                 % (name, i + 1, t.violation, at))
-        tj, jok, jrej = judge("Trace_CacheProp" if module == "Trace_Cache.tla" else "Trace_StaticProp", badp, "selftest")
-        if jok or jrej[0]["at"] != i + 1:
-            raise vlib.ToolError("self-test: the property judge did not reject log %s at the corrupted record %d: %s" % (name, i + 1, json.dumps(jrej[:1])))
-        ctx.add_part("self-test corrupted record in " + name, rejected_at=at, corrupted=i + 1, judge_rejected_at=jrej[0]["at"])
+    # ------------------------------------------------------------------------------------------
+    # 5. self-tests of the binding - only on material that validated cleanly, and only when nothing is
+    #    being reported (on a broken tree the genuine report must not be disturbed)
+    # ------------------------------------------------------------------------------------------
+    if not ctx.violations:
+        # 5a. a corrupted edge must be noticed
+        if "g3" in clean_graphs:
+            src = os.path.join(wd, "g3.edges")
+            bad = os.path.join(wd, "g3bad.edges")
+            flipped = False
+            with open(src) as f, open(bad, "w") as o:
+                for line in f:
+                    if not flipped:
+                        e = json.loads(line)
+                        if e[1][0] == 1 and e[2][0] == 1:      # a get that hits: claim another content id
+                            e[2][2] = 3 - e[2][2] if e[2][2] in (1, 2) else 1
+                            line = json.dumps(e, separators=(",", ":")) + "\n"
+                            flipped = True
+                    o.write(line)
+            s = harness_json(run_bin(cache, ["edges", bad, "0", "60", "1", "2"]), "cache edges self-test")
+            if not flipped or s["mismatches"] == 0:
+                raise vlib.ToolError("self-test: an edge with a flipped expected content id was not rejected by the replay")
+            ctx.add_part("self-test corrupted edge", rejected=True, mismatches=s["mismatches"])
+        # 5b. corrupted records must be rejected, by the implementation model and by the property judge
+        pick = [f for f in clean_logs if f[0].startswith("random limit=64")][:1] + [f for f in clean_logs if f[0].startswith("handlers")][:1]
+        for name, module, cfg, path, n, runs in pick:
+            evs = [json.loads(x) for x in open(path) if x.startswith("{")]
+            if module == "Trace_Cache.tla":
+                idx = [i for i, e in enumerate(evs) if e["ev"] == "get" and e["hit"]]
+                field = "rhash"
+            else:
+                idx = [i for i, e in enumerate(evs) if e["ev"] == "end" and e["status"] == 200]
+                field = "hash"
+            if not idx:
+                continue
+            i = idx[len(idx) // 2]
+            evs[i][field] ^= 1
+            badp = path + ".bad"
+            vlib.write_lines(badp, evs)
+            t = validate_trace(module, cfg, badp, "selftest", timeout=900)
+            at, ev, pred = rejected_info(t)
+            if t.violation is None or at != i + 1:
+                raise vlib.ToolError("self-test: log %s with record %d corrupted was not rejected there (violation=%s at=%s)"
+                                     % (name, i + 1, t.violation, at))
+            tj, jok, jrej = judge("Trace_CacheProp" if module == "Trace_Cache.tla" else "Trace_StaticProp", badp, "selftest")
+            if jok or jrej[0]["at"] != i + 1:
+                raise vlib.ToolError("self-test: the property judge did not reject log %s at the corrupted record %d: %s" % (name, i + 1, json.dumps(jrej[:1])))
+            ctx.add_part("self-test corrupted record in " + name, rejected_at=at, corrupted=i + 1, judge_rejected_at=jrej[0]["at"])
 
-    # 5c. (thorough) behaviours of the faulty models, simulated by TLC, must be rejected by the property judge
-    if thorough:
-        def sim(dev):
-            r = run_tlc("Sim_Cache.tla", "Sim_Cache_%s.cfg" % dev, D, workers=1, simulate=1000, depth=90, seed_val=vlib.seed(), timeout=900,
-                        work_id="c16-sim-" + dev)
-            recs = []
-            n = 0
-            for line in io.StringIO(r.out):
-                if line.startswith('"T[') and n < 1500:
-                    recs += json.loads(json.loads(line)[1:])
-                    n += 1
-            path = os.path.join(wd, "sim-%s.ndjson" % dev)
-            vlib.write_lines(path, recs)
-            tj, ok, rej = judge("Trace_CacheProp", path, "sim" + dev)
-            return dev, n, len(recs), ok, rej, tj
-        caught = 0
-        with cf.ThreadPoolExecutor(max_workers=4) as ex:
-            for dev, n, nrec, ok, rej, tj in ex.map(sim, ["none"] + [d for d, _ in INV_OF_DEV]):
-                ctx.add_tlc("property judge on %d simulated behaviours of Dev={%s}" % (n, "" if dev == "none" else dev), tj)
-                if n == 0:
-                    raise vlib.ToolError("simulation of Dev=%s produced no behaviour" % dev)
-                if dev == "none" and not ok:
-                    raise vlib.ToolError("the property judge rejects behaviours of the fault-free model: %s" % json.dumps(rej[:2]))
-                if dev != "none" and not ok:
-                    caught += 1
-                ctx.add_part("judge sensitivity " + dev, behaviours=n, records=nrec, rejected=(not ok),
-                             reasons=sorted(set(x["why"] for x in rej)))
-        # random behaviours: a fault may by chance not show within the sample, but most must
-        if caught < 5:
-            raise vlib.ToolError("the property judge rejected simulated behaviours of only %d of the 7 faulty models" % caught)
+        # 5c. (thorough) behaviours of the faulty models, simulated by TLC, must be rejected by the property judge
+        if thorough:
+            def sim(dev):
+                r = run_tlc("Sim_Cache.tla", "Sim_Cache_%s.cfg" % dev, D, workers=1, simulate=700, depth=90, seed_val=vlib.seed(), timeout=900,
+                            work_id="c16-sim-" + dev)
+                recs = []
+                n = 0
+                for line in io.StringIO(r.out):
+                    if line.startswith('"T[') and n < 1500:
+                        recs += json.loads(json.loads(line)[1:])
+                        n += 1
+                path = os.path.join(wd, "sim-%s.ndjson" % dev)
+                vlib.write_lines(path, recs)
+                tj, ok, rej = judge("Trace_CacheProp", path, "sim" + dev)
+                return dev, n, len(recs), ok, rej, tj
+            caught = 0
+            devs = [d for d, _ in INV_OF_DEV]
+            with cf.ThreadPoolExecutor(max_workers=4) as ex:
+                for dev, n, nrec, ok, rej, tj in ex.map(sim, ["none"] + devs):
+                    ctx.add_tlc("property judge on %d simulated behaviours of Dev={%s}" % (n, "" if dev == "none" else dev), tj)
+                    if n == 0:
+                        raise vlib.ToolError("simulation of Dev=%s produced no behaviour" % dev)
+                    if dev == "none" and not ok:
+                        raise vlib.ToolError("the property judge rejects behaviours of the fault-free model: %s" % json.dumps(rej[:2]))
+                    if dev != "none" and not ok:
+                        caught += 1
+                    ctx.add_part("judge sensitivity " + dev, behaviours=n, records=nrec, rejected=(not ok),
+                                 reasons=sorted(set(x["why"] for x in rej)))
+            # random behaviours: a fault may by chance not show within the sample, but most must
+            if caught < len(devs) - 3:
+                raise vlib.ToolError("the property judge rejected simulated behaviours of only %d of the %d faulty models" % (caught, len(devs)))
 
     shutil.rmtree(wd, ignore_errors=True)
     ctx.cov["rule"] = ("edges: every transition of TLC's complete state graphs, each replayed from a fresh real Cache and followed by every "
@@ -558,9 +689,10 @@ def run(tier, replay):
     ctx.cov["exhaustive"] = True
     ctx.assumptions += [
         "payload identity: content id <-> (fill byte, MIME type) in graph replays; (length, 31-bit FNV-1a, MIME string) in logs",
-        "clock: the harness binary overrides clock_gettime(CLOCK_REALTIME); calibrated against the real Cache on every run and cross-checked by a run on the real clock",
+        "clock: the harness binary overrides clock_gettime(CLOCK_REALTIME); calibrated on every run and cross-checked by cache-level and handler-level runs on the real clock; file modification times are stamped with the same clock",
         "RwLock gives the linearization order: records are numbered while the guard is held",
-        "handler level: files change only between phases of requests; the file -> MIME type table of the harness for 5 extensions",
+        "handler level: requests are parsed by the real parser; files change only between phases of requests; the file -> MIME type table of the harness for 5 extensions",
         "TLC and the graphs it prints are the oracle; the harness only looks expectations up",
+        "not exercised: time limits / sizes beyond 2^31 (TLC integers are 32-bit)",
     ]
     return ctx.finish()
